@@ -443,8 +443,17 @@ func (p *untypedParamBinder) tryUnmarshaler(target reflect.Value, defaultValue i
 	// When a type implements encoding.TextUnmarshaler we'll use that instead of reflecting some more
 	if reflect.PtrTo(target.Type()).Implements(textUnmarshalType) {
 		if defaultValue != nil && len(data) == 0 {
-			target.Set(reflect.ValueOf(defaultValue))
-			return true, nil
+			defVal := reflect.ValueOf(defaultValue)
+			if defVal.Type().AssignableTo(target.Type()) {
+				target.Set(defVal)
+				return true, nil
+			}
+			// a default read from a specification document is text: it goes through the unmarshaler like a value does
+			str, isString := defaultValue.(string)
+			if !isString {
+				return true, fmt.Errorf("default value of type %T cannot be used as %s", defaultValue, target.Type())
+			}
+			data = str
 		}
 		value := reflect.New(target.Type())
 		if err := value.Interface().(encoding.TextUnmarshaler).UnmarshalText([]byte(data)); err != nil {
